@@ -8,7 +8,7 @@
     content afterwards as over the plain ordered list ([C08_message_processing_same]).
     That the real redb store and the in-memory store follow this table-level model is what the
     correspondence runs check (sessions and direct probes, on stores holding several documents). *)
-From ID Require Import Base.Bytes Model.Entry Model.Tables Model.FsStore Model.Bounds Model.Ranger Model.Put Proofs.BoundsFacts Proofs.RangerFacts Proofs.FsPutFacts Proofs.ConvergeFacts Proofs.RangeFacts Proofs.RefineFacts.
+From ID Require Import Base.Bytes Model.Entry Model.Tables Model.FsStore Model.Bounds Model.Ranger Model.Put Proofs.BoundsFacts Proofs.RangerFacts Proofs.FsPutFacts Proofs.ConvergeFacts Proofs.RangeFacts Proofs.RefineFacts Proofs.SessionRefine.
 
 Theorem C08_namespace_scan_exact : forall ns n a k, n <= MAX256 ->
   in_bounds rid_cmp (fst (rb_namespace ns)) (snd (rb_namespace ns)) (n, a, k) = (n =? ns).
@@ -62,13 +62,27 @@ Theorem C08_insert_is_ordered_map_insert : forall EH ns T e, wf_records T -> wf_
   wf_records (fst (fs_put prefix_succ EH T e)).
 Proof. exact fs_put_is_om_put. Qed.
 
-(** any message: same reply, same announced entries, same content afterwards *)
+(** any message whose values are well formed (what the decoder guarantees): same reply, same
+    announced entries, same content afterwards *)
 Theorem C08_message_processing_same : forall EH ns mss k status_of v T m,
-  wf_records T -> (forall e st, v e st = true -> ok_entry ns e) ->
+  wf_records T -> wf_message m -> (forall e st, v e st = true -> e_ns e = ns) ->
   let '(T', r1, i1) := process_message (fs_ops prefix_succ EH ns) mss k status_of (fun _ e st => v e st) T m in
   let '(S', r2, i2) := process_message om_ops mss k status_of (fun _ e st => v e st) (fs_all ns T) m in
   wf_records T' /\ S' = fs_all ns T' /\ r1 = r2 /\ i1 = i2.
 Proof. exact table_store_is_ordered_map. Qed.
+
+(** a whole session over two table-level stores = the session over the two ordered lists: the
+    same transcript, and the final tables hold the final lists *)
+Theorem C08_session_same : forall EH MAXF mss k now ns fuel TA TB ocA ocB m turn acc,
+  wf_records TA -> wf_records TB -> wf_message m ->
+  match session prefix_succ EH MAXF mss k fuel now ns ns TA TB ocA ocB m turn acc with
+  | Some (TA', TB', _, _, tr) =>
+      list_session mss k (vsync EH MAXF now ns) fuel (fs_all ns TA) (fs_all ns TB) m turn acc
+        = Some (fs_all ns TA', fs_all ns TB', tr)
+      /\ wf_records TA' /\ wf_records TB'
+  | None => list_session mss k (vsync EH MAXF now ns) fuel (fs_all ns TA) (fs_all ns TB) m turn acc = None
+  end.
+Proof. exact table_session_is_list_session. Qed.
 
 (** sensitivity (D14): the unclamped scan of the pinned tree returns another document's rows *)
 Example C08_unclamped_range_leaks_refuted :
@@ -82,4 +96,5 @@ Proof. exact unclamped_range_leaks_refuted. Qed.
 Print Assumptions C08_range_scan_exact.
 Print Assumptions C08_insert_is_ordered_map_insert.
 Print Assumptions C08_message_processing_same.
+Print Assumptions C08_session_same.
 Print Assumptions C08_unclamped_range_leaks_refuted.
